@@ -646,6 +646,17 @@ def check(tier, seed):
     bcases += bidir_cases(c.rng, tier)
     lines = [a[0] for a in acases]
     io = lib.run_lines([exe], lines)
+    # the same runs in the other supported build configurations (logging on, invariant checks off, assertions active) must print the same bits
+    def _cfg_judge(case, out):
+        if not out.startswith(("RET", "ROOTS")) and " RET " not in out:
+            return "the entry point does not return a basis on inexact weights (%s)" % out[:160]
+        return None
+    def _cfg_canon(out):
+        # the pointer order of the edge descriptors (EORD) differs from build to build, hence the choice among equally light cycles and, on inexact weights,
+        # the last bits of the returned value: what must agree is that a basis of the same size is returned (its quality is judged in the default configuration)
+        t = out.split()
+        return ("returned", t[t.index("N") + 1]) if " RET " in out and "N" in t else out
+    lib.config_differential(c, "c09", HARNESS["srcs"], lines, io, judge=_cfg_judge, canon=_cfg_canon, libs=HARNESS["libs"], flags=HARNESS["flags"], limit=700)
     sidx = [i for i, l in enumerate(lines) if l.split()[1] == "signed" and " RET " in io[i]]
     mo = lib.run_model("signed", [model_case_of(lines[i], io[i]) for i in sidx], group=GROUP)
     model_out = dict(zip(sidx, mo))
